@@ -41,7 +41,7 @@ CLAUSES = {"join": "valid distinct address recorded under its ID within the time
            "lookup": "master's current mapping, trivial answers, -2 / -1 codes", "undisturbed": "asking never disturbs the master",
            "release": "back to the unassigned address, lease freed", "connected": "check_connection() True exactly for connected nodes",
            "safe": "with loss: no exception, termination, valid-or-None"}
-PROBES = ["collision", "serialised_call_checked", "join_via_relay", "join_at_level_4", "master_mcu_stopped", "orphan_rejoined", "fault:mcu_stall_on_rx", "master_busy_during_check", "peer_mcu_stopped"]
+PROBES = ["collision", "serialised_call_checked", "join_via_relay", "join_at_level_4", "master_mcu_stopped", "orphan_rejoined", "fault:mcu_stall_on_rx", "master_busy_during_check", "peer_mcu_stopped", "relay_closed_during_exchange"]
 SHRINK_KEYS = ("joiners", "faults")
 CHUNK = 2
 MAX_INCONCLUSIVE = 0.03
@@ -210,6 +210,23 @@ def make(i, base_seed, tier):
             scn.update(serial=True, lossy=False, faults=[], prefill={}, joiners=js, family="peer_down",
                        peer_down={"gone": xr.random() < 0.7, "sends": [{"len": xr.choice([0, 5, 24]), "type": xr.choice([1, 33, 70]), "seed": xr.getrandbits(20), "gap_ms": xr.randint(0, 30)} for _ in range(xr.randint(4, 8))],
                                   "asks": [{"what": xr.choice(["lookup_address", "lookup_node_id", "check"]), "gap_ms": xr.randint(0, 40)} for _ in range(xr.randint(4, 10))]})
+    if not big and 0.4 <= fam < 0.46:
+        # (relay_closes) level 1 has one free slot, A takes it, B joins below A; A's application switches allow_children off at the
+        # instant A's radio stores the master's reply for B (explicit event): the exchange in progress completes all the same -
+        # allow_children only decides whether a node answers NETWORK_POLL
+        ida, idb = xr.sample(range(1, 256), 2)
+        fake = [x for x in range(1, 256) if x not in (ida, idb)]
+        xr.shuffle(fake)
+        d0 = xr.randint(1, 5)
+        pf = {fake.pop(): a for a in range(1, 6) if a != d0}
+        ka, kb = knobs(), knobs()
+        for k_ in (ka, kb, scn["master_knobs"]):
+            k_.pop("stall_prob", None)
+            k_.pop("stall_us", None)
+        ja = {"id": ida, "cls": "mesh", "offset_ms": 0, "knobs": ka, "ops": [{"op": "renew", "timeout": 10.0}]}
+        jb = {"id": idb, "cls": "mesh", "offset_ms": 0, "knobs": kb, "ops": [{"op": "renew", "timeout": 10.0}, {"op": "lookup_address", "id": idb}]}
+        scn.update(serial=True, lossy=False, faults=[], prefill={str(k): v for k, v in pf.items()}, joiners=[ja, jb], family="relay_closes",
+                   close_on_rx={"ptype": 128, "relay_id": ida, "for_id": idb})
     return scn
 
 
@@ -260,6 +277,16 @@ def _run(scn, w, res):
                     net.nodes[rid].mcu.pending_stall = int(rule["ms"] * MS)
                     sim.count("fault:mcu_stall_on_rx")
             net.nodes[rid].radio.on_store = on_store
+    if scn.get("close_on_rx"):
+        rule = scn["close_on_rx"]
+        closed = []
+
+        def on_store_close(pipe, data):
+            if not closed and len(data) >= 10 and data[6] == rule["ptype"] and data[7] == (rule["for_id"] & 0xFF):
+                closed.append(sim.now)
+                net.nodes[rule["relay_id"]].node.allow_children = False     # (a plain attribute: no SPI traffic)
+                sim.count("relay_closed_during_exchange")
+        net.nodes[rule["relay_id"]].radio.on_store = on_store_close
     net.start()
     sim.advance(2 * MS)
     lossy = scn.get("lossy", False)
